@@ -2611,6 +2611,187 @@ def views(repo, out):
         out.unsure(f, f.node, 'unrecognised set_col')
 
 
+# =========================================================================== C01.index-norm
+INDEXER = 'openmdao/utils/indexer.py'
+_INDEX_PRODUCERS = ('as_array', 'flat', 'shaped_array', '__call__')
+INDEX_SITES = [(TJ, f'{CLS}._create_in_idx_map'), (TJ, f'{CLS}._get_sol2jac_map'),
+               (INDEXER, 'idx_list_to_index_array')]
+
+
+def _normalising_methods(repo):
+    """Names of Indexer methods that return shape-resolved (negative-normalised) indices for *every*
+    indexer class: derived from indexer.py -- a method normalises on class C when the implementation C
+    resolves to calls self.shaped_instance() or another normalising method on self."""
+    m = repo.module(INDEXER)
+    if 'Indexer' not in m.classes:
+        raise AnalysisError('indexer.py: class Indexer vanished')
+    hier = [q for q in m.classes if '.' not in q and (INDEXER, 'Indexer') in repo.mro(INDEXER, q)]
+    unshaped = [q for q in hier if q != 'Indexer' and f'{q}.shaped_instance' in m.funcs]
+    if not unshaped:
+        raise AnalysisError('indexer.py: no class overrides shaped_instance')
+    names = set()
+    for q in hier:
+        for fq in m.funcs:
+            if fq.startswith(q + '.') and fq.count('.') == 1:
+                names.add(fq.split('.')[1])
+
+    def norm_on(cls, meth, depth=0):
+        if meth == 'shaped_instance':
+            return True
+        if depth > 4:
+            return False
+        f = repo.lookup(INDEXER, cls, meth)
+        if f is None:
+            return False
+        for c in astx.calls(f.node):
+            if astx.path(astx.receiver(c)) == 'self' and astx.callee_attr(c) != meth and \
+                    norm_on(cls, astx.callee_attr(c), depth + 1):
+                return True
+        return False
+    return {n for n in names if all(norm_on(q, n) for q in unshaped)}, unshaped
+
+
+@rule('C01.index-norm', floor=4)
+def index_norm(repo, out):
+    """Index arrays taken from an Indexer and used as positions (compared, offset, concatenated, returned
+    as an index array) come from a shape-resolved producer (shaped_array / shaped_instance()...): raw
+    as_array()/flat()/() keep negative entries, which only numpy subscripting interprets correctly."""
+    norm, unshaped = _normalising_methods(repo)
+    if 'shaped_array' not in norm:
+        raise AnalysisError('indexer.py: shaped_array no longer resolves through shaped_instance')
+    out.count('normalising_methods', len(norm))
+    for rel, qn in INDEX_SITES:
+        fn = repo.func(rel, qn)
+        cx = Ctx(fn)
+
+        def recv_normalised(e, at, depth=0):
+            """Is receiver expression e already a shaped instance?"""
+            if depth > 4 or e is None:
+                return False
+            if isinstance(e, ast.Call) and astx.callee_attr(e) in norm:
+                return True
+            if isinstance(e, ast.Name):
+                v, d = cx.alias(e.id, at)
+                return recv_normalised(v, d, depth + 1) if v is not None else False
+            return False
+
+        def use_kind(e, st, depth=0):
+            """'subscript' | 'length' | 'position' | 'return' | None for expression e evaluated in st."""
+            par = getattr(e, '_parent', None)
+            if depth > 6 or par is None:
+                return None
+            if isinstance(par, ast.Subscript):
+                if par.slice is e:
+                    return 'subscript'
+                if par.value is e:
+                    return use_kind(par, st, depth + 1)      # raw[sel] is still raw
+            if isinstance(par, ast.Tuple) and isinstance(getattr(par, '_parent', None), ast.Subscript) and \
+                    par._parent.slice is par:
+                return 'subscript'
+            if isinstance(par, ast.Call) and e in par.args:
+                nm = astx.callee_attr(par)
+                if nm == 'len':
+                    return 'length'
+                if nm in ('indexed_val', 'take'):
+                    return 'subscript'
+                if nm in ('append', 'extend', 'hstack', 'concatenate', 'logical_and', 'nonzero', 'array', 'asarray'):
+                    return 'position'
+                return None
+            if isinstance(par, ast.Attribute) and par.value is e:
+                if par.attr in ('size', 'shape', 'ndim', 'dtype'):
+                    return 'length'
+                if par.attr in ('ravel', 'copy', 'flatten', 'astype'):
+                    gp = getattr(par, '_parent', None)
+                    return use_kind(gp, st, depth + 1) if isinstance(gp, ast.Call) else None
+                return None
+            if isinstance(par, (ast.BinOp, ast.Compare, ast.UnaryOp)):
+                return 'position'
+            if isinstance(par, ast.AugAssign):
+                return 'position'
+            if isinstance(par, (ast.Return, ast.Yield)):
+                return 'return'
+            if isinstance(par, ast.Assign) and par.value is e and len(par.targets) == 1 and \
+                    isinstance(par.targets[0], ast.Name):
+                v = par.targets[0].id
+                dnode = cx.node(par)
+                kinds = set()
+                for n in cx.g.nodes:
+                    if n.kind in ('entry', 'exit', 'raise', 'join') or dnode not in cx.rd.defs(n, v):
+                        if not (n.kind == 'stmt' and isinstance(n.ast, ast.AugAssign) and
+                                isinstance(n.ast.target, ast.Name) and n.ast.target.id == v and
+                                dnode in cx.rd.defs(n, v)):
+                            continue
+                    if n.kind == 'stmt' and isinstance(n.ast, ast.AugAssign) and \
+                            isinstance(n.ast.target, ast.Name) and n.ast.target.id == v:
+                        kinds.add('position')
+                        continue
+                    for ex in n.exprs():
+                        for x in astx.walk(ex):
+                            if isinstance(x, ast.Name) and x.id == v and isinstance(x.ctx, ast.Load):
+                                kinds.add(use_kind(x, n.ast, depth + 1))
+                for k in ('position', 'return'):
+                    if k in kinds:
+                        return k
+                if None in kinds:
+                    return None
+                return 'subscript' if 'subscript' in kinds else 'length' if kinds else None
+            return None
+
+        found = 0
+        for st in astx.walk_stmts(fn.node.body):
+            for c in own_calls(st):
+                meth = astx.callee_attr(c)
+                if meth not in _INDEX_PRODUCERS or not isinstance(c.func, ast.Attribute):
+                    continue
+                recv = astx.receiver(c)
+                if isinstance(recv, ast.Attribute) and recv.attr == 'flat' and meth != 'flat':
+                    continue
+                if astx.path(recv) in ('np', 'numpy') or astx.path(recv) is None and \
+                        not isinstance(recv, (ast.Call, ast.Subscript)):
+                    continue
+                found += 1
+                at = cx.node(st)
+                if meth in norm or recv_normalised(recv, at):
+                    out.ok(fn, st, f'{astx.src(c)[:60]}: shape-resolved (negative-normalised) indices')
+                    continue
+                k = use_kind(c, st)
+                if k in ('subscript', 'length'):
+                    out.ok(fn, st, f'raw {meth}() is only used as a numpy subscript / for its length (negative '
+                           'entries are interpreted by the subscripted array)')
+                elif k == 'position':
+                    out.bad(fn, st, f'`{astx.src(c)}` returns the indices as the user wrote them (negative entries '
+                            f'kept; only {sorted(norm & set(_INDEX_PRODUCERS))} / shaped_instance() resolve them '
+                            'against the source shape), but the result is compared / offset / concatenated as '
+                            'absolute positions: a negative index falls outside every local range and the entry '
+                            'silently gets no seed / lands on the wrong row or column',
+                            key=f'index-norm:{fn.qualname.split(".")[-1]}:{meth}:position')
+                elif k == 'return':
+                    sib = [r for r in astx.walk_stmts(fn.node.body) if isinstance(r, ast.Return) and r is not st
+                           and r.value is not None and not (isinstance(r.value, ast.Constant))]
+                    arange_based = False
+                    for r in sib:
+                        v = r.value
+                        if isinstance(v, ast.Name):
+                            ds = cx.rd.defs(cx.node(r), v.id)
+                            arange_based = bool(ds) and all(
+                                d.kind == 'stmt' and isinstance(d.ast, ast.Assign) and
+                                any(astx.callee_attr(cc) in ('arange', 'indexed_val') for cc in astx.calls(d.ast.value))
+                                for d in ds)
+                    if arange_based:
+                        out.bad(fn, st, f'this branch returns `{astx.src(c)}` (indices as written, negative entries '
+                                'kept) while the sibling branch returns positions taken from np.arange(size) (never '
+                                'negative): callers use the result as absolute source positions (columns of an '
+                                'assembled jacobian, transfer indices), so a negative src_index of a single-indexer '
+                                f'connection addresses the wrong column; use one of {sorted(norm & set(_INDEX_PRODUCERS))}',
+                                key=f'index-norm:{fn.qualname.split(".")[-1]}:{meth}:return')
+                    else:
+                        out.unsure(fn, st, f'raw {meth}() escapes through the return value')
+                else:
+                    out.unsure(fn, st, f'cannot classify how the raw result of {meth}() is used')
+        if not found:
+            out.unsure(fn, fn.node, 'no index-array producer call found')
+
+
 # =========================================================================== self-test
 _SOLVE_LOOP_TAIL = (
     "                            jac_setter(inds, mode, imeta)\n\n"
@@ -2764,6 +2945,15 @@ selftest(
            "totals = self._get_dict_J(self.J, self.input_meta['fwd'], self.output_meta['fwd'],",
            "totals = self._get_dict_J(self.J, self.input_meta['rev'], self.output_meta['rev'],", 'C01.views'),
     Mutant('set-col-writes-row', TJ, "        self.J[:, icol] = column", "        self.J[icol, :] = column", 'C01.views'),
+    # ---- index-norm
+    Mutant('seed-indices-raw', TJ, "                irange = in_idxs.shaped_array(copy=True)",
+           "                irange = in_idxs.as_array(copy=True)", 'C01.index-norm'),
+    Mutant('seed-indices-raw-flat', TJ, "                irange = in_idxs.shaped_array(copy=True)",
+           "                irange = in_idxs.flat(copy=True)", 'C01.index-norm'),
+    Mutant('sol-indices-offset-arithmetic', TJ,
+           "                        sol_inds = np.arange(start, stop, dtype=INT_DTYPE)\n"
+           "                        sol_inds = sol_inds[indices.flat()]",
+           "                        sol_inds = indices.flat() + start", 'C01.index-norm'),
     # ---- mode tables
     Mutant('input-vec-swapped', TJ, "self.input_vec = {'fwd': model._dresiduals, 'rev': model._doutputs}",
            "self.input_vec = {'fwd': model._doutputs, 'rev': model._dresiduals}", 'C01.mode-tables'),
@@ -2974,6 +3164,13 @@ selftest(
          "                        J_dict[out, inp] = J[ofmeta['jac_slice'], cols]"),
     Twin('twin-dict-j-keywords', TJ, "self.J_dict = self._get_dict_J(J, wrt_metadata, of_metadata, 'dict')",
          "self.J_dict = self._get_dict_J(J, of_metadata=of_metadata, wrt_metadata=wrt_metadata, return_format='dict')"),
+    Twin('twin-seed-indices-via-shaped-instance', TJ, "                irange = in_idxs.shaped_array(copy=True)",
+         "                irange = in_idxs.shaped_instance().as_array(copy=True)"),
+    Twin('twin-seed-indices-shaped-temporary', TJ, "                irange = in_idxs.shaped_array(copy=True)",
+         "                resolved = in_idxs.shaped_instance()\n"
+         "                irange = resolved.as_array(copy=True)"),
+    Twin('twin-sol-indices-as-array-subscript', TJ, "                        sol_inds = sol_inds[indices.flat()]",
+         "                        sel = indices.as_array()\n                        sol_inds = sol_inds[sel]"),
     Twin('twin-solve-in-physical-vector-names', DIRECT,
          "            with system._unscaled_context(outputs=[d_outputs], residuals=[d_residuals]):\n"
          "                if isinstance(system._assembled_jac._dr_do_mtx, DenseMatrix):",
